@@ -102,3 +102,141 @@ def basePlasmaChecked (isReceive : Bool) (methodCost : Option Nat) (dataLen : Na
     | none => if dataLen > Gen.MaxDataLength then none else some (basePlasma false none dataLen)
 
 end ZV.Pow
+
+namespace ZV.Pow
+open ZV
+
+/-! ## base cost of the embedded methods: the REVIEWED expectation
+
+The statement prices a call of an embedded contract method by the KIND of the method: a method whose embedded receive
+only changes the contract's storage is `simple` (2.5 base costs), a method whose receive answers with ONE descendant send
+block (a withdrawal, a refund of a locked amount, a payout, a mint) is `withdraw` (3.5), one that answers with TWO is
+`doubleWithdraw` (4.5). Two more kinds exist in the unchanged tree and are recorded as such: the registration of a pillar
+costs two simple calls (`twoSimple`; it burns the deposited QSR through the token contract) and the reward collection of
+pillars, sentinels and stakers costs a simple call + a withdrawal in the origin method table and a simple call in the accelerator table and the later
+tables built on it
+(`reward`; "it's not called enough to cause issues", common.go).
+
+The table below is HAND-WRITTEN from a reading of vm/embedded/implementation/*.go (what each `ReceiveBlock` emits) - it is
+not generated. `Props/C12.lean` proves that it names exactly the methods the real `GetEmbeddedMethod` resolves (a method
+added later fails the theorem until it is reviewed here) and that the real `GetPlasma` of every method under every spork
+regime is the cost of its reviewed kind. The driver answers `plasma-method` lines with `reviewedCost`. -/
+
+inductive PlasmaClass where
+  | simple          -- storage only
+  | withdraw        -- one descendant send
+  | doubleWithdraw  -- two descendant sends
+  | twoSimple       -- pillar registration
+  | reward          -- CollectReward of pillar / sentinel / stake: simple + withdraw in the origin table, simple in the later ones
+  deriving DecidableEq, Repr
+
+/-- cost of a kind with the (regenerated) plasma table; `accelerator` = the method table in force is the accelerator
+    table or one of the later ones, which are built on top of it (bridge-and-liquidity, htlc): any spork is enforced -/
+def classCost (accelerator : Bool) : PlasmaClass → Nat
+  | .simple => Gen.PT_EmbeddedSimple
+  | .withdraw => Gen.PT_EmbeddedWWithdraw
+  | .doubleWithdraw => Gen.PT_EmbeddedWDoubleWithdraw
+  | .twoSimple => 2 * Gen.PT_EmbeddedSimple
+  | .reward => if accelerator then Gen.PT_EmbeddedSimple else Gen.PT_EmbeddedSimple + Gen.PT_EmbeddedWWithdraw
+
+open PlasmaClass in
+/-- contract.Method ↦ kind, in the order of the generated `Gen.methodNames` (sorted) -/
+def reviewedClasses : List (String × PlasmaClass) := [
+  ("accelerator.AddPhase", simple),
+  ("accelerator.CreateProject", simple),
+  ("accelerator.Donate", simple),
+  ("accelerator.Update", withdraw),            -- pays the due phases
+  ("accelerator.UpdatePhase", simple),
+  ("accelerator.VoteByName", simple),
+  ("accelerator.VoteByProdAddress", simple),
+  ("bridge.ChangeAdministrator", simple),
+  ("bridge.ChangeTssECDSAPubKey", simple),
+  ("bridge.Emergency", simple),
+  ("bridge.Halt", simple),
+  ("bridge.NominateGuardians", simple),
+  ("bridge.ProposeAdministrator", simple),
+  ("bridge.Redeem", withdraw),                 -- pays / mints the unwrapped amount
+  ("bridge.RemoveNetwork", simple),
+  ("bridge.RemoveTokenPair", simple),
+  ("bridge.RevokeUnwrapRequest", simple),
+  ("bridge.SetAllowKeyGen", simple),
+  ("bridge.SetBridgeMetadata", simple),
+  ("bridge.SetNetwork", simple),
+  ("bridge.SetNetworkMetadata", simple),
+  ("bridge.SetOrchestratorInfo", simple),
+  ("bridge.SetTokenPair", simple),
+  ("bridge.Unhalt", simple),
+  ("bridge.UnwrapToken", simple),
+  ("bridge.UpdateWrapRequest", simple),
+  ("bridge.WrapToken", simple),
+  ("htlc.AllowProxyUnlock", simple),
+  ("htlc.Create", simple),
+  ("htlc.DenyProxyUnlock", simple),
+  ("htlc.Reclaim", withdraw),                  -- pays the locked amount back
+  ("htlc.Unlock", withdraw),                   -- pays the locked amount out
+  ("liquidity.BurnZnn", simple),
+  ("liquidity.CancelLiquidityStake", withdraw),-- pays the staked amount back
+  ("liquidity.ChangeAdministrator", simple),
+  ("liquidity.CollectReward", doubleWithdraw), -- ZNN and QSR reward
+  ("liquidity.Donate", simple),
+  ("liquidity.Emergency", simple),
+  ("liquidity.Fund", simple),
+  ("liquidity.LiquidityStake", simple),
+  ("liquidity.NominateGuardians", simple),
+  ("liquidity.ProposeAdministrator", simple),
+  ("liquidity.SetAdditionalReward", simple),
+  ("liquidity.SetIsHalted", simple),
+  ("liquidity.SetTokenTuple", simple),
+  ("liquidity.UnlockLiquidityStakeEntries", simple),
+  ("liquidity.Update", simple),
+  ("pillar.CollectReward", reward),
+  ("pillar.Delegate", simple),
+  ("pillar.DepositQsr", simple),
+  ("pillar.Register", twoSimple),
+  ("pillar.RegisterLegacy", twoSimple),
+  ("pillar.Revoke", withdraw),                 -- pays the ZNN stake back
+  ("pillar.Undelegate", simple),
+  ("pillar.Update", simple),
+  ("pillar.UpdatePillar", simple),
+  ("pillar.WithdrawQsr", withdraw),            -- pays the deposited QSR back
+  ("plasma.CancelFuse", withdraw),             -- pays the fused QSR back
+  ("plasma.Fuse", simple),
+  ("sentinel.CollectReward", reward),
+  ("sentinel.DepositQsr", simple),
+  ("sentinel.Register", simple),
+  ("sentinel.Revoke", doubleWithdraw),         -- pays ZNN and QSR back
+  ("sentinel.Update", simple),
+  ("sentinel.WithdrawQsr", withdraw),          -- pays the deposited QSR back
+  ("spork.ActivateSpork", simple),
+  ("spork.CreateSpork", simple),
+  ("stake.Cancel", withdraw),                  -- pays the staked ZNN back
+  ("stake.CollectReward", reward),
+  ("stake.Stake", simple),
+  ("stake.Update", simple),
+  ("swap.RetrieveAssets", doubleWithdraw),     -- pays ZNN and QSR out
+  ("token.Burn", simple),
+  ("token.IssueToken", withdraw),              -- sends the initial supply to the owner
+  ("token.Mint", withdraw),                    -- sends the minted amount to the receiver
+  ("token.UpdateToken", simple)]
+
+/-- reviewed kind of a method by name -/
+def reviewedClass (name : String) : Option PlasmaClass :=
+  (reviewedClasses.find? (fun e => e.1 == name)).map (·.2)
+
+/-- reviewed base cost of a call of `name` under spork regime `regime` (= accelerator + 2·bridge + 4·htlc); `none` = the
+    method was never reviewed -/
+def reviewedCost (regime : Nat) (name : String) : Option Nat :=
+  (reviewedClass name).map (classCost (regime != 0))
+
+/-- the generated row (regime, index into the generated names, plasma of the real GetPlasma) agrees with the review -/
+def rowAsReviewed (names : List String) (row : Nat × Nat × Nat) : Bool :=
+  match names[row.2.1]? with
+  | none => false
+  | some name => reviewedCost row.1 name == some row.2.2
+
+/-- verdict on a call of an embedded method that carries `total` plasma the account really owns (fused and/or worked for):
+    refused for too little total plasma iff it is below the reviewed cost -/
+def methodCallPaid (regime : Nat) (name : String) (total : Nat) : Option Bool :=
+  (reviewedCost regime name).map (fun c => decide (c ≤ total))
+
+end ZV.Pow
